@@ -96,8 +96,8 @@ def rule_units(tier):
         pos = [i for i, ch in enumerate(text) if ch.isalnum()]
         if not pos:
             continue
-        step = max(1, len(pos) // 3) if tier == "quick" else 1
-        for i in (pos[::step][:3] if tier == "quick" else pos):
+        step = max(1, len(pos) // 2) if tier == "quick" else 1
+        for i in (pos[::step][:2] if tier == "quick" else pos):
             k += 1
             us.append(dict(h="rt_rule", cls=name, text=text, at=i, std="f2008" if k % 2 else "f2003", cost=1))
     return us
